@@ -45,6 +45,13 @@ class Dataset:
         self.reads.append({"name": name, "chr": chrom, "start0": start0, "cigar": cigar, "flag": flag, "mapq": mapq,
                            "tags": tags or [], "seq": seq})
 
+    def add_raw_record(self, name, chrom, start0, cigar=None, flag=0, mapq=60, seq=None):
+        """a record written LITERALLY: reference id / position are kept whatever the flag says (flag 4 + `chrom` = the
+        placed unmapped mate of the SAM convention), `cigar=None` = no CIGAR ('*'); `cigar` may be a string over
+        MIDNSHP=XB (zero lengths allowed) or a list of (op code, length) pairs"""
+        self.reads.append({"name": name, "chr": chrom, "start0": start0, "cigar": cigar, "flag": flag, "mapq": mapq,
+                           "tags": [], "seq": seq, "raw": True})
+
     def read_from_exons(self, name, chrom, exons, flag=0, mapq=60, tags=None, polya=0, polyt=0):
         """alignment following 1-based closed exon blocks; optional soft-clipped polyA (3') / polyT (5') tail"""
         parts = []
@@ -109,6 +116,19 @@ class Dataset:
             a = pysam.AlignedSegment()
             a.query_name = r["name"]
             a.flag = r["flag"]
+            if r.get("raw"):
+                a.reference_id = names.index(r["chr"]) if r["chr"] is not None else -1
+                a.reference_start = r["start0"]
+                a.mapping_quality = r["mapq"]
+                if isinstance(r["cigar"], str):
+                    a.cigarstring = r["cigar"]
+                elif r["cigar"] is not None:
+                    a.cigartuples = [tuple(x) for x in r["cigar"]]
+                s = r["seq"] if r["seq"] is not None else (self._seq_for(r) if isinstance(r["cigar"], str) else "") or "ACGT" * 10
+                a.query_sequence = s
+                a.query_qualities = pysam.qualitystring_to_array("I" * len(s))
+                segs.append((a.reference_id if a.reference_id >= 0 else len(names), a.reference_start, a))
+                continue
             if r["flag"] & 4:
                 a.reference_id = -1
                 a.reference_start = -1
